@@ -333,6 +333,12 @@ pub enum AbuseOp {
     HeadersOnClosed { authority: String },
     /// `len` pseudo-random bytes keyed by `seed`
     Garbage { len: u32, seed: u64 },
+    /// one DATA frame of `len` octets, charged against our connection send window like any DATA of ours (the plain `Frame`
+    /// op is not: it is meant for frames whose fate is a connection error)
+    CountedData { stream: StreamRef, len: u32, end_stream: bool },
+    /// book-keeping only, nothing is sent: requests written as raw HEADERS frames with END_STREAM whose response is complete
+    /// count as closed from here on (the `Frame` op does not record the request side), so that a scripted request can follow
+    SettleRawStreams,
 }
 
 /// Client script, processed in order.
@@ -1643,6 +1649,12 @@ impl H2Peer {
                         self.push_frame(&Frame::Continuation { stream: self.abuse_stream, end_headers: last && *finish, fragment: frag });
                         if last { self.in_cont_flood = false; }
                     }
+                }
+                AbuseOp::SettleRawStreams => { for s in self.rec.streams.values_mut() { if s.opened_by_us && s.recv_end && !s.sent_end { s.sent_end = true; } } }
+                AbuseOp::CountedData { stream, len, end_stream } => {
+                    let sid_ = self.resolve(stream);
+                    self.push_frame(&Frame::Data { stream: sid_, end_stream: *end_stream, data: vec![b'x'; *len as usize], pad: None });
+                    self.conn_send_window -= *len as i64;
                 }
                 AbuseOp::PingFlood { ack, .. } => self.push_frame(&Frame::Ping { ack: *ack, data: (i as u64).to_be_bytes() }),
                 AbuseOp::SettingsFlood { params, .. } => self.send_settings(now, params.clone()),
